@@ -4,7 +4,7 @@ in-reader (`NLt`: thread `i` serves reader `i`; owner tag `n*64+i`), the frame l
 take part in a step, and the steps `deliver` and `Read` – a many-to-one `Read` that does not complete a group
 goes straight to the echo program `Write(nil, in)`.
 -/
-import Uniflow.Proofs.FlowH29
+import Uniflow.Proofs.FlowH4
 
 namespace Uniflow.FlowM
 open Uniflow.Tracer Uniflow.Node Uniflow.Flow Uniflow.FlowInv Uniflow.FlowG Uniflow.ATracer Uniflow.FlowH
@@ -16,7 +16,7 @@ structure NLt (lg : Log) (n : Nat) (i : Rid) (th : Thread) (a : A) : Prop where
   req : ∀ x ∈ a.reqs, x.r = i → ReqB lg n th.pc x
   nz : ∀ x ∈ a.reqs, x.r = i → x.st = .cells [] →
     remFor th.pc x.p ≠ [] ∨ (∃ pk grp, th.pc = .action pk grp ∧ pk.id = x.p) ∨
-    ∃ q, th.pc = .emit [.write none q] ∧ q.id = x.p
+    ∃ w q, (th.pc = .emit [.write w q] ∨ th.pc = .emit [.link x.p x.p, .write w q]) ∧ q.id = x.p
   wb : wOK th.pc
 
 /-- every forward thread of the node agrees with the ghost log -/
@@ -102,14 +102,15 @@ theorem nlt_read (lg : Log) (n : Nat) (i : Rid) (a : A) (p : Pkt) (rest : List P
   · intro x hx hr hst
     simp only [aread, List.mem_append, List.mem_singleton] at hx
     rcases hx with hx | hx
-    · rcases h.nz x hx hr hst with e | ⟨pk, grp, e, _⟩ | ⟨q, e, _⟩
+    · rcases h.nz x hx hr hst with e | ⟨pk, grp, e, _⟩ | ⟨w, q, e | e, _⟩
       · simp [remFor] at e
+      · cases e
       · cases e
       · cases e
     · subst hx
       rcases hpc with ⟨g, e⟩ | e
       · exact Or.inr (Or.inl ⟨p, g, e, rfl⟩)
-      · exact Or.inr (Or.inr ⟨p, e, rfl⟩)
+      · exact Or.inr (Or.inr ⟨none, p, Or.inl e, rfl⟩)
   · rcases hpc with ⟨g, e⟩ | e <;> subst e
     · trivial
     · intro w q hm; simp at hm
